@@ -50,34 +50,48 @@ func NewConnectednessManager() *ConnectednessManager {
 // AssociatePeer associate a peer to a group
 func (m *ConnectednessManager) AssociatePeer(group string, peer peer.ID) {
 	m.muState.Lock()
+	sg := m.getGroupStatus(group)
+	m.muState.Unlock()
+
+	// locks are always taken in the same order as in
+	// `WaitForConnectednessChange`: group locker first, then state
+	sg.notify.L.Lock()
+	defer sg.notify.L.Unlock()
+
+	m.muState.Lock()
 	defer m.muState.Unlock()
 
-	sg := m.getGroupStatus(group)
 	sp := m.getPeerStatus(peer)
-
-	sg.notify.L.Lock()
 	if _, ok := sg.peers[peer]; !ok {
 		// we got a new peer, update and signal an update
 		sg.peers[peer] = sp
 		sp.groups[group] = sg
 		sg.notify.Broadcast()
 	}
-	sg.notify.L.Unlock()
 }
 
 // UpdateState update peer current connectedness state
 func (m *ConnectednessManager) UpdateState(peer peer.ID, update ConnectednessType) {
-	m.muState.Lock()
-	defer m.muState.Unlock()
+	var groups []*GroupStatus
 
+	m.muState.Lock()
 	sp := m.getPeerStatus(peer)
 	if sp.status != update {
 		sp.status = update
 
-		// notify each group that need an update
+		groups = make([]*GroupStatus, 0, len(sp.groups))
 		for _, g := range sp.groups {
-			g.notify.Broadcast()
+			groups = append(groups, g)
 		}
+	}
+	m.muState.Unlock()
+
+	// notify each group that need an update, holding the group locker so
+	// that a waiter cannot miss it between its check and its wait
+	for _, g := range groups {
+		g.notify.L.Lock()
+		g.notify.Broadcast()
+		g.notify.L.Unlock()
 	}
 }
 
